@@ -44,7 +44,9 @@ class DeFactoCookiePolicy(DefaultCookiePolicy):
         which ``.local`` is appended if the name has no dot: a cookie with
         ``Domain=.local`` would belong to every such host.
         '''
-        domain = domain.lstrip('.').lower()
+        # (The root dot at the end of a fully qualified name is ignored.)
+        domain = domain.strip('.').lower()
+        host = host.rstrip('.')
         return host == domain or host.endswith('.' + domain)
 
     def set_ok(self, cookie, request):
@@ -52,6 +54,12 @@ class DeFactoCookiePolicy(DefaultCookiePolicy):
             return False
 
         host = http.cookiejar.request_host(request)
+
+        if not cookie.domain_specified:
+            # A cookie without a Domain attribute belongs to the host that
+            # set it: to that host as it is named, not to its "effective"
+            # name ("intranet" and "intranet.local" are two hosts).
+            cookie.domain = host
 
         if cookie.domain_specified and self._is_ip_address(host) and \
                 cookie.domain.lstrip('.') != host:
@@ -61,6 +69,13 @@ class DeFactoCookiePolicy(DefaultCookiePolicy):
 
         if cookie.domain_specified and \
                 not self._domain_matches(host, cookie.domain):
+            return False
+
+        if cookie.domain_specified and \
+                '.' not in cookie.domain.strip('.') and \
+                cookie.domain.strip('.') != host.rstrip('.'):
+            # A whole top-level domain, also when it is written with the
+            # root dot (".test.").
             return False
 
         try:
@@ -99,6 +114,13 @@ class DeFactoCookiePolicy(DefaultCookiePolicy):
             return False
 
         return DefaultCookiePolicy.return_ok(self, cookie, request)
+
+    def return_ok_domain(self, cookie, request):
+        if not cookie.domain_specified:
+            # Compared with the host as it is named (see set_ok).
+            return cookie.domain == http.cookiejar.request_host(request)
+
+        return DefaultCookiePolicy.return_ok_domain(self, cookie, request)
 
     def count_cookies(self, domain):
         '''Return the number of cookies for the given domain.'''
